@@ -1,7 +1,7 @@
 """C13 -- string comparison helpers equal parse-then-compare and blame the right side."""
 from .. import sym
 from ..norm import n, P, C, V, match, find_all
-from . import cmpmodel, hexcodec
+from . import cmpmodel, hexcodec, common
 
 ID = "C13"
 CONFIGS = {"quick": ["K0", "K3", "K4", "K5"], "thorough": ["K0", "K1", "K3", "K4", "K5", "K15"]}
@@ -130,10 +130,8 @@ def run(ctx, FS):
         if len(ob) != 1 or len(ib) != 1:
             ctx.missing(r, "FromStr impls for outer/inner FuzzyHash (%d/%d)" % (len(ob), len(ib)), cfg=F.key)
         else:
-            ps = cmpmodel.ret_paths(ob[0])
-            e = n(ps[0].ret) if len(ps) == 1 else None
-            m = match(("call", "core::result::Result::<T, E>::map", (("call", "core::str::FromStr::from_str", (P(1),)), ("fn", V("f")))), e) if e else None
-            ctx.ob(r, ("hash::FuzzyHash::from_str", "forwards"), bool(m) and m["f"].endswith("::new"), "outer from_str is %s" % (sym.fmt(e) if e else e), cfg=F.key, where=ob[0].where())
+            why = common.wrapper_forwards(F, ob[0], "core::str::FromStr::from_str", 1)
+            ctx.ob(r, ("hash::FuzzyHash::from_str", "forwards"), why is None, "outer from_str: %s" % why, cfg=F.key, where=ob[0].where())
             # the inner type the outer one forwards to
             c = [t for _, t in ob[0].calls() if t["callee"].get("path") == "core::str::FromStr::from_str"]
             st = F.tys(c[0]["callee"]["self_ty"]) if c else None
@@ -153,11 +151,9 @@ def run(ctx, FS):
                    e == ("call", "hash::public::FuzzyHashType::from_str_bytes", (("call", "core::str::<impl str>::as_bytes", (P(1),)), P(2))),
                    "from_str_with is %s" % (sym.fmt(e) if e else e), cfg=F.key, where=fw.where())
         for obb in F.method("from_str_bytes", "hash::FuzzyHash<"):
-            ps = cmpmodel.ret_paths(obb)
-            e = n(ps[0].ret) if len(ps) == 1 else None
-            m = match(("call", "core::result::Result::<T, E>::map", (("call", "hash::public::FuzzyHashType::from_str_bytes", (P(1), P(2))), V("cl"))), e) if e else None
+            why = common.wrapper_forwards(F, obb, "hash::public::FuzzyHashType::from_str_bytes", 2)
             ctx.instance(r)
-            ctx.ob(r, ("hash::FuzzyHash::from_str_bytes", "forwards"), bool(m), "outer from_str_bytes is %s" % (sym.fmt(e) if e else e), cfg=F.key, where=obb.where())
+            ctx.ob(r, ("hash::FuzzyHash::from_str_bytes", "forwards"), why is None, "outer from_str_bytes: %s" % why, cfg=F.key, where=obb.where())
         # compare -> compare_with::<Tlsh>
         cb = F.fn("compare_easy::compare")
         ctx.instance(r)
